@@ -1,6 +1,6 @@
 // C08: powers and modular powers are exact
 #include "../harness/gen.hpp"
-#include "gmp-mparam.h"
+#include "../harness/thresholds.hpp"
 #ifndef REDC_1_TO_REDC_2_THRESHOLD
 #define REDC_1_TO_REDC_2_THRESHOLD 15   /* gmp-impl.h default */
 #endif
